@@ -49,6 +49,19 @@ def rule_remove_hides(ctx, crate, rule="R-REMOVE-HIDES"):
                   "a removed bar keeps its remote draw target (it can still paint into a freed slot)", cfg)
 
 
+    # ... and on every path: the only way out of remove() without hiding the bar is the "not a member" edge of remote()
+    none_edges = []
+    for sb, t, pl, d in K.discr_switches(b):
+        if b.slice({"k": "copy", "place": pl}, at=sb).has_call(r"draw_target::ProgressDrawTarget::remote"):
+            for tgt, vs in K.edge_variants(crate, t, "std::option::Option").items():
+                if vs == {"None"}:
+                    none_edges.append((sb, tgt))
+    escaped = set(b.reach([0], avoid=hidden_stores, avoid_edges=none_edges)) & set(b.return_blocks())
+    ctx.check(bool(hidden_stores) and not escaped, rule, "hides-on-every-path", b.name, K.fn_loc(b),
+              "every return of remove() for a member bar passes the store of the hidden draw target",
+              "remove() can return for a member bar without hiding it (the call succeeds but the bar keeps drawing on the MultiProgress's terminal)", cfg)
+
+
 SOURCES = (r"draw_target::ProgressDrawTarget::(drawable|is_hidden|width)", r"draw_target::Drawable::<'_>::width",
            r"multi::MultiState::(width|is_hidden)", r"multi::MultiProgress::is_hidden", r"progress_bar::ProgressBar::is_hidden",
            r"console::Term::(is_term|size|size_checked|features)", r"term_like::TermLike::(width|height)")
